@@ -195,10 +195,10 @@ func c09R3(c *Ctx, r *Report) {
 		return
 	}
 	reviewed := map[string]string{
-		"mir/gen.(*functionBuilder).constArrayIndex":     "fixed-array index must be a compile-time constant (documented rule; known finding C04.R1 covers its flow-insensitivity)",
-		"mir/gen.(*functionBuilder).matchCaseValue":      "match case labels are constants",
+		"mir/gen.(*functionBuilder).constArrayIndex":      "fixed-array index must be a compile-time constant (documented rule; known finding C04.R1 covers its flow-insensitivity)",
+		"mir/gen.(*functionBuilder).matchCaseValue":       "match case labels are constants",
 		"mir/gen.(*functionBuilder).lookupQualifiedConst": "module-level constants",
-		"mir/gen.(*functionBuilder).lowerIndexValue":     "indexing an array *literal* with a constant index selects the element directly (D-04 family)",
+		"mir/gen.(*functionBuilder).lowerIndexValue":      "indexing an array *literal* with a constant index selects the element directly (D-04 family)",
 	}
 	n := 0
 	for _, p := range c.Pkgs {
@@ -235,7 +235,9 @@ func c09R3(c *Ctx, r *Report) {
 	_ = constant.MakeBool
 }
 
-func init() { lateInits = append(lateInits, func() { props["C09"].Quick = append(props["C09"].Quick, c09R4) }) }
+func init() {
+	lateInits = append(lateInits, func() { props["C09"].Quick = append(props["C09"].Quick, c09R4) })
+}
 
 // C09.R4: if the constant evaluator folds casts, an integer narrowing consults both the width and the
 // signedness of the target type (a fold that only masks by width gives 254 for `254 as i8`, the program -2).
